@@ -64,7 +64,7 @@ package json
 //@ func json.(*parserState).consumeArray
 //@   requires ibOK(p, b)
 //@   requires [C16_cap] capOK(p)
-//@   requires [C16_lvl] 1 <= lvl && lvl <= p.maxRecursion + 8
+//@   requires [C16_lvl] 1 <= lvl && lvl <= p.maxRecursion + 1
 //@   assigns p.ib, p.currPath, p.firstToken, p.querySatisfied
 //@   ensures 0 <= n && n <= len(b)
 //@   ensures [C08C09_J2] old(p.ib) <= p.ib && p.ib <= old(p.ib) + len(b)
@@ -80,7 +80,7 @@ package json
 //@ func json.(*parserState).consumeObject
 //@   requires ibOK(p, b)
 //@   requires [C16_cap] capOK(p)
-//@   requires [C16_lvl] 1 <= lvl && lvl <= p.maxRecursion + 8
+//@   requires [C16_lvl] 1 <= lvl && lvl <= p.maxRecursion + 1
 //@   assigns p.ib, p.currPath, p.firstToken, p.querySatisfied
 //@   ensures 0 <= n && n <= len(b)
 //@   ensures [C08C09_J2] old(p.ib) <= p.ib && p.ib <= old(p.ib) + len(b)
